@@ -175,6 +175,7 @@ let () =
                  else if t = "model:pinned-group-values" then pinned_grp := true
                  else if t = "model:pinned-group-end" then pinned_end := true
                  else if starts "prog:" t then ()
+                 else if starts "order:" t then ()   (* definition order across members: no influence on the model *)
                  else if t = "out:usage" then raise (Unsupported "usage")) toks;
              let members = List.rev !members in
              if members = [] then raise (Unsupported "no handler");
